@@ -94,6 +94,14 @@ CHECKS["C13"] = dict(
     note="The lexer (tag grammar) is the trusted projection. Characters, not words, are compared; pause punctuation is removed on both sides. One known finding (expression text not escaped) is listed.",
 )
 
+CHECKS["C04"] = dict(
+    category="model_checking",
+    technique="TLA+ model of the speech post-processing pipeline (Speech.tla: replace_array_string, optional-word de-duplication, marker stripping, pause merging) model-checked by TLC (OperandsKept); TLC-enumerated textbook-grammar contexts (ExprGen.tla) with a distinct decimal literal at every operand position spoken under every language x style x verbosity; literal counts judged by TLC (Trace_Operands.tla)",
+    text="Design: for all child-string triples up to a bound, post-processing never deletes an operand token; the is_repetitive of the pinned commit is refuted. Implementation: every context P(..Q(..)..) of 31 productions (1 922 trees, exhaustive to depth 2) plus simulated depth-4 nestings, literals written with the language's decimal mark, under language x {ClearSpeak, SimpleSpeak} x {Terse, Medium, Verbose} (all 48 in thorough, 3 seeded per tree in quick); TLC counts each literal in the speech (digit boundaries) and rejects fewer occurrences than planted.",
+    design_ref="DESIGN.md section 5 C04",
+    note="Rule files are data: coverage of rule paths is by generated expressions, not by a model of each rule. More occurrences than planted is MODEL-DRIFT only. Two known findings (decimal-comma mixed number; Vietnamese under/over scripts) are listed.",
+)
+
 NOT_YET = {}
 
 
